@@ -5,6 +5,7 @@ import (
 	"encoding/base64"
 	"encoding/xml"
 	"fmt"
+	"hash/fnv"
 	"io"
 	"io/ioutil"
 	"mime/multipart"
@@ -358,6 +359,16 @@ func (x *Exec) Build(op Op) *Req {
 		r.Header.Set("X-Amz-Copy-Source", src)
 		r.Header.Set("Content-Length", "0")
 		x.setMeta(r, op.StrMap("meta"))
+		// x-amz-metadata-directive: the code gives it no meaning (S3!CopyObject always merges), so a request may
+		// carry any spelling of it; which one is a stateless function of the request and the tour's seed, so that re-runs agree
+		h := fnv.New32a()
+		h.Write([]byte(src + "|" + r.Path + "|" + strconv.Itoa(len(r.Header)) + "|" + strconv.FormatInt(x.Conc.seed+x.Conc.salt, 10)))
+		switch h.Sum32() % 3 {
+		case 1:
+			r.Header.Set("X-Amz-Metadata-Directive", "COPY")
+		case 2:
+			r.Header.Set("X-Amz-Metadata-Directive", "REPLACE")
+		}
 		return r
 	case "GetVersioning":
 		r := newReq("GET", "/"+b)
